@@ -522,12 +522,16 @@ void premature_stream_end(DFS::byte opcode)
 	    << ") instruction\n";
 }
 
+// this_op is the HFEv3 opcode (if any) whose operand is the next byte
+// of the stream.  The caller keeps it between calls because the data
+// for one side of a track is stored in separate 256-byte blocks and an
+// opcode can be the last byte of a block.
 void copy_hfe(bool hfe3, const byte* begin, const byte* end,
-	      std::back_insert_iterator<std::vector<byte>> dest)
+	      std::back_insert_iterator<std::vector<byte>> dest,
+	      byte& this_op)
 {
   int got_bits = 0;
   byte out = 0;
-  byte this_op = 0;
   while (begin != end)
     {
       int skipbits = 0;
@@ -685,10 +689,6 @@ void copy_hfe(bool hfe3, const byte* begin, const byte* end,
 	  got_bits = 0;
 	}
     }
-  if (this_op)
-    {
-      premature_stream_end(this_op);
-    }
 }
 
 // Sort the sectors by address.
@@ -755,6 +755,7 @@ HfeFile::read_all_sectors(const std::vector<PicTrack>& lut,
       std::vector<byte> track_stream;
       track_stream.reserve(track_len_in_bytes / 2);
       auto begin_offset = side_block_size * side;
+      byte pending_opcode = 0;
       while (begin_offset < track_bytes_read)
 	{
 	  const auto end_offset = std::min(begin_offset + side_block_size,
@@ -779,7 +780,8 @@ HfeFile::read_all_sectors(const std::vector<PicTrack>& lut,
 	  copy_hfe(3 == hfe_version_,
 		   raw_data.data() + begin_offset,
 		   raw_data.data() + end_offset,
-		   std::back_inserter(track_stream));
+		   std::back_inserter(track_stream),
+		   pending_opcode);
 	  if (DFS::verbose)
 	    {
 #if ULTRA_VERBOSE
@@ -790,6 +792,10 @@ HfeFile::read_all_sectors(const std::vector<PicTrack>& lut,
 #endif
 	    }
 	  begin_offset += raw_data_block_size;
+	}
+      if (pending_opcode)
+	{
+	  premature_stream_end(pending_opcode);
 	}
 #if ULTRA_VERBOSE
       if (DFS::verbose)
